@@ -72,6 +72,8 @@ class CtxModel:
         self.main = z3.main_ctx()
 
     def eval(self, e: Any, model_completion: bool = True) -> Any:
+        if self.ctx is None or self.ctx == self.main:
+            return self.model.eval(e, model_completion=model_completion)
         r = self.model.eval(e.translate(self.ctx), model_completion=model_completion)
         return r.translate(self.main)
 
@@ -139,6 +141,13 @@ def small_scope(assertions: list, timeout_ms: int = 4000, scopes: tuple = (1, 2,
     return None
 
 
+_BUDGET = {"expensive_left": 6}
+
+
+def reset_budget(n: int = 6) -> None:
+    _BUDGET["expensive_left"] = n
+
+
 def discharge(ob: Obligation, want_model: bool = True, second_opinion: bool = False) -> None:
     if ob.status != "open":
         return
@@ -154,7 +163,7 @@ def discharge(ob: Obligation, want_model: bool = True, second_opinion: bool = Fa
             s.add(c)
     if ob.kind == "cover":
         ob.backend = "z3-5.1.0"
-        if small_scope(list(s.assertions()), 2000, (1, 2, 3)) is not None:
+        if small_scope([c for c in ob.pc if c is not True and c is not False], 2000, (1, 2, 3)) is not None:
             ob.status = "proved"
             ob.detail = "sat (small-scope witness of the precondition)"
             ob.ms = (time.time() - t0) * 1000
@@ -170,29 +179,55 @@ def discharge(ob: Obligation, want_model: bool = True, second_opinion: bool = Fa
             ob.detail = "sat" if r == z3.sat else "not shown unsat"
         return
     s.add(z3.Not(ob.goal))
+    # NB: Solver.assertions() may hand back proxy literals (k!N) instead of the formulas; keep our own list
+    assertions = [c for c in ob.pc if c is not True and c is not False] + [z3.Not(ob.goal)]
+    if any(c is False for c in ob.pc):
+        assertions.append(z3.BoolVal(False))
     s.set("timeout", min(3000, Z3_TIMEOUT_MS))
     r = s.check()
     ob.backend = "z3-5.1.0"
+    budget = _BUDGET
+    if r != z3.unsat and budget["expensive_left"] <= 0:
+        ob.status = "unknown" if r == z3.unknown else "refuted"
+        ob.detail = "counter-model search budget of this function exhausted" if r == z3.unknown else \
+            "sat, but no validated small model (counter-model not replayable)"
+        ob.ms = (time.time() - t0) * 1000
+        return
     if r != z3.unsat:
-        m = small_scope(list(s.assertions()))
+        budget["expensive_left"] -= 1
+        from .inst import cegar_model_fresh_ctx
+        for scope in (2, 3):
+            try:
+                fm = cegar_model_fresh_ctx(assertions, scope=scope, total_s=8.0)
+            except z3.Z3Exception:
+                fm = None
+            if fm is not None:
+                ob.status = "refuted"
+                ob.backend = "z3-5.1.0 (small-scope counterexample-guided instantiation, model validated)"
+                ob.model = CtxModel(fm[0], fm[2], fm[1])
+                ob.ms = (time.time() - t0) * 1000
+                return
+        m = small_scope(assertions, 2000, (1, 2, 3))
         if m is not None:
             ob.status = "refuted"
             ob.backend = "z3-5.1.0 (small-scope model search)"
             ob.model = m
             ob.ms = (time.time() - t0) * 1000
             return
-    if r == z3.unknown:
+    if r == z3.unknown and second_opinion:
         s.set("timeout", Z3_TIMEOUT_MS)
         r = s.check()
-    if r == z3.unknown:
+    if r == z3.unknown and second_opinion:
         v, be = fallback(s.to_smt2())
         if v == "unsat":
             r = z3.unsat
             ob.backend = be
         elif v == "sat":
-            ob.status = "refuted"
+            # a bare `sat` from a command-line back end comes without a model we can validate or replay:
+            # it is not evidence of a violation (string solvers do answer sat wrongly); the obligation stays undecided
+            ob.status = "unknown"
             ob.backend = be
-            ob.detail = "counter-model found by fallback solver (no model extracted)"
+            ob.detail = f"{be} answered sat but no validated counter-model exists; z3: {s.reason_unknown()}"
             ob.ms = (time.time() - t0) * 1000
             return
     ob.ms = (time.time() - t0) * 1000
